@@ -150,6 +150,9 @@ def seeded_tracks(ctx, prop, n, **kw):
         body = nt.random_track(r, ng, res=res, big=big, phrases=r.choice([0, 0, 1, 2, 4, 7]),
                                events=r.choice([0, 0, 1, 3]), **kw)
         case = {"id": f"{prop}-s{k}", "res": res, "body": body, "tempo": tempo}
+        if k % 3 == 2:
+            import tm as _tm
+            case["song"] = _tm.random_metadata_lines(r)
         if k % 4 == 1:
             # blank, whitespace-only and unparsable lines in the [Events] section before this one and inside the section itself
             # (they are reported and skipped; what the section's note lines mean does not depend on them)
